@@ -3,8 +3,8 @@
 P="$(readlink -f "$1")"; C="$2"; T="${3:-quick}"; WT=/tmp/mt/wt_$$
 mkdir -p /tmp/mt; git -C /repo worktree prune; git -C /repo worktree add -q --detach "$WT" HEAD || exit 2
 ( cd "$WT" && git apply "$P" ) || { echo "patch does not apply"; git -C /repo worktree remove --force "$WT"; exit 2; }
-cd /verif && VERIF_REPO="$WT" ./check "$C" --tier "$T" > /tmp/mt/log_$$ 2>&1
+cd /verif && VERIF_OUT=/tmp/mt/out_$$ VERIF_REPO="$WT" ./check "$C" --tier "$T" > /tmp/mt/log_$$ 2>&1
 rc=$?
 git -C /repo worktree remove --force "$WT"
 echo "exit=$rc viol=$(grep -c '^VIOLATION' /tmp/mt/log_$$)"; grep -m2 "detail:" /tmp/mt/log_$$ | cut -c1-230; grep "MACHINERY" /tmp/mt/log_$$ | head -2
-rm -f /tmp/mt/log_$$
+rm -rf /tmp/mt/log_$$ /tmp/mt/out_$$
